@@ -150,13 +150,32 @@ class State:
     def iv(self, a):
         return self.val.get(a, FULLTOP)
 
-    def refine(self, a, iv):
+    def refine(self, a, iv, _depth=0):
         cur = self.iv(a)
         m = I.meet(cur, iv)
         # meet() ANDs nan; keep caller's decision on nan via explicit set_nan
         m = Itv(m.lo, m.hi, m.lo_open, m.hi_open, cur.nan and iv.nan, cur.isint or iv.isint, m.empty).norm()
         self.val[a] = m
+        if m != cur and not m.is_bottom():
+            self.propagate_from(a, _depth)
         return not m.is_bottom()
+
+    def propagate_from(self, a, _depth=0):
+        """atoms are values: a value computed from `a` before a fact about `a` was learnt still equals the same expression of it"""
+        if _depth >= 3:
+            return
+        for y, d in list(self.defs.items()):
+            if d[0] in ('add', 'sub', 'mul') and len(d) == 3 and a in (d[1], d[2]) and y in self.val:
+                ip, iq = self.iv(d[1]), self.iv(d[2])
+                if ip.empty or iq.empty:
+                    continue
+                r = I.add(ip, iq) if d[0] == 'add' else I.sub(ip, iq) if d[0] == 'sub' else (I.square(ip) if d[1] == d[2] else I.mul(ip, iq))
+                oy = self.val[y]
+                my = I.meet(oy, r)
+                my = Itv(my.lo, my.hi, my.lo_open, my.hi_open, oy.nan and r.nan, oy.isint, my.empty).norm()
+                if my != oy and not my.is_bottom():
+                    self.val[y] = my
+                    self.propagate_from(y, _depth + 1)
 
 
 def join_obj(objs):
@@ -1067,6 +1086,8 @@ class Analyser:
                 cur = s.iv(atom)
                 m = I.meet(Itv(cur.lo, cur.hi, cur.lo_open, cur.hi_open, False, cur.isint, cur.empty), Itv(biv.lo, biv.hi, biv.lo_open, biv.hi_open))
                 s.val[atom] = Itv(m.lo, m.hi, m.lo_open, m.hi_open, cur.nan and keepnan, cur.isint, m.empty).norm()
+                if s.val[atom] != cur and not s.val[atom].is_bottom():
+                    s.propagate_from(atom)
                 # a fact about -u is a fact about u
                 d = s.defs.get(atom)
                 if d and d[0] == 'neg' and not s.val[atom].empty:
